@@ -142,15 +142,28 @@ let judge op args got =
        | _ -> fail "cmp-operands")
   | "hash" ->
       let x = a 0 in
+      (* num-order's own hashing of the primitives (XPrimHashModel): the model of what the implementation feeds the hasher *)
+      let prim =
+        let f = Array.of_list (String.split_on_char ':' (List.nth args 0)) in
+        let k = f.(0) in
+        let bits_of s = if s = "size" then 64 else int_of_string s in
+        if String.length k > 2 && String.sub k 0 2 = "pu" then Some (prim_int_hash (Zar.of_int (bits_of (String.sub k 2 (String.length k - 2)))) false (z f.(1)))
+        else if String.length k > 2 && String.sub k 0 2 = "pi" then Some (prim_int_hash (Zar.of_int (bits_of (String.sub k 2 (String.length k - 2)))) true (z f.(1)))
+        else if k = "s" then Some (prim_float_hash (Zar.of_int 23) (Zar.of_int 8) (z f.(1)))
+        else if k = "d" then Some (prim_float_hash (Zar.of_int 52) (Zar.of_int 11) (z f.(1)))
+        else None in
+      let prim_asis = match prim with
+        | Some m -> " asis=" ^ (if [ "ok"; hx m; "10" ] = got then "same" else "diff") ^ " path=num-order-prim"
+        | None -> "" in
       if huge x then
         (match hash_asis x with
          | Some h -> expect ~extra:("cls=hash-" ^ kind x ^ " path=est-only") ("ok " ^ hx h ^ " 10") got
          | None -> skip "no-model")
       else
       (match spec_hash (value_of (untag x)) with
-       | None -> (match got with "ok" :: _ -> pass ~nt:false ~extra:("cls=hash-nonfinite-" ^ kind x) () | _ -> fail "ok <any>")
+       | None -> (match got with "ok" :: _ -> pass ~nt:false ~extra:("cls=hash-nonfinite-" ^ kind x ^ prim_asis) () | _ -> fail "ok <any>")
        | Some h ->
-           let asis = match hash_asis x with
+           let asis = if prim <> None then String.trim prim_asis else match hash_asis x with
              | Some m -> "asis=" ^ (if [ "ok"; hx m; "10" ] = got then "same" else "diff")
              | None -> "asis=na" in
            expect ~extra:("cls=hash-" ^ kind x ^ " " ^ asis) ("ok " ^ hx h ^ " 10") got)
